@@ -283,6 +283,7 @@ func CheckC20(h *History, blk *BlockRecord) []Violation {
 	updatedSpot, updatedPerp := map[uint64]string{}, map[uint64]string{}
 	newSpotRate, newPerpRate := map[uint64]sdkmath.LegacyDec{}, map[uint64]sdkmath.LegacyDec{}
 	execNamedSpot, execNamedPerp := map[uint64]bool{}, map[uint64]bool{}
+	execIdxSpot := map[uint64]int{}
 	feesOf := map[string]sdk.Coins{}
 	txCount := map[string]int{}
 	for i := range blk.Txs {
@@ -363,6 +364,9 @@ func CheckC20(h *History, blk *BlockRecord) []Violation {
 		case *tstypes.MsgExecuteOrders:
 			if tx.Code == 0 {
 				for _, id := range m.SpotOrderIds {
+					if !execNamedSpot[id] {
+						execIdxSpot[id] = i // the first successful request that names it
+					}
 					execNamedSpot[id] = true
 				}
 				for _, id := range m.PerpetualOrderIds {
@@ -454,8 +458,22 @@ func CheckC20(h *History, blk *BlockRecord) []Violation {
 					out = append(out, Violation{Sig: "C20/executed-without-trigger", Detail: fmt.Sprintf("spot order %d (%s) executed although the reference market %v vs updated rate %s does not satisfy it (height %d)", o.OrderId, o.OrderType, ref.Cands, r, cur.Height)})
 				}
 			}
-		} else if t := spotTrig[o.OrderId]; strings.HasPrefix(t, "undecided") || (strings.Contains(t, "pool-priced") && moversOf(o.OrderPrice.BaseDenom, o.OrderPrice.QuoteDenom) > 0) {
-			// a pool-derived price moves with every swap / join / exit of the block; such blocks are not judged
+		} else if t := spotTrig[o.OrderId]; strings.Contains(t, "pool-priced") && moversOf(o.OrderPrice.BaseDenom, o.OrderPrice.QuoteDenom) > 0 {
+			// A pool-derived price moves with every join / exit of the block: the market "in force" is the one after the
+			// joins and exits that precede the execution request. They are re-executed on a branch of the previous state.
+			idx, have := execIdxSpot[o.OrderId]
+			ref, ok := c20Ref{}, false
+			if have {
+				ref, ok = h.c20RefAtExecution(blk, idx, o.OrderPrice.BaseDenom, o.OrderPrice.QuoteDenom)
+			}
+			if !ok {
+				h.Labels["c20-execution-not-judged(pool-priced)"]++
+			} else if v := ref.verdict(o.OrderPrice.Rate, o.OrderType != tstypes.SpotOrderType_LIMITSELL); v == "false" {
+				out = append(out, Violation{Sig: "C20/executed-without-trigger", Detail: fmt.Sprintf("spot order %d (%s) was executed although, after the joins and exits that precede the request in its block, the reference market %v does not satisfy its rate %s (at the start of the block: %s) (height %d; %s)", o.OrderId, o.OrderType, ref.Cands, o.OrderPrice.Rate, t, cur.Height, blockSummary(blk))})
+			} else {
+				h.Labels["c20-execution-judged-after-pool-movers/"+v]++
+			}
+		} else if strings.HasPrefix(t, "undecided") {
 			h.Labels["c20-execution-not-judged(pool-priced)"]++
 		} else if !strings.HasPrefix(t, "true") {
 			out = append(out, Violation{Sig: "C20/executed-without-trigger", Detail: fmt.Sprintf("spot order %d (%s) was executed although its trigger condition did not hold at the prices in force: %s (height %d)", o.OrderId, o.OrderType, t, cur.Height)})
@@ -687,4 +705,34 @@ func (h *History) c20MarketTable() map[string]c20Ref {
 		}
 	}
 	return out
+}
+
+// c20RefAtExecution: the reference market for base/quote at the point of transaction execIdx of the block: the previous
+// committed state at this block's time, with the block's successful joins and exits before that point re-executed
+// through the router. ok == false when something else may have moved the pricing pools (then nothing is judged).
+func (h *History) c20RefAtExecution(blk *BlockRecord, execIdx int, base, quote string) (c20Ref, bool) {
+	ctx, ok := h.prevStateAtNewTime()
+	if !ok {
+		return c20Ref{}, false
+	}
+	for i := 0; i < execIdx && i < len(blk.Txs); i++ {
+		tx := blk.Txs[i]
+		if tx.Code != 0 {
+			continue
+		}
+		switch tx.Msg.(type) {
+		case *ammtypes.MsgJoinPool, *ammtypes.MsgExitPool:
+			if err, _ := execMsg(h.W, ctx, tx.Msg); err != nil {
+				return c20Ref{}, false
+			}
+		case *ammtypes.MsgSwapExactAmountIn, *ammtypes.MsgSwapExactAmountOut, *ammtypes.MsgSwapByDenom, *ammtypes.MsgFeedMultipleExternalLiquidity:
+			// queued for the end of the block / no reserve change
+		default:
+			if strings.Contains(tx.MsgType, ".amm.") || strings.Contains(tx.MsgType, ".perpetual.") || strings.Contains(tx.MsgType, ".leveragelp.") {
+				return c20Ref{}, false
+			}
+		}
+	}
+	snap := &Snapshot{Pools: h.W.App.AmmKeeper.GetAllPool(ctx)}
+	return h.c20RefMarket(ctx, snap, base, quote), true
 }
